@@ -1,10 +1,11 @@
 """compile (not run) every Go harness once so that the first check does not pay the build"""
-import os, sys, json
+import os, sys, json, glob
 sys.path.insert(0, os.path.dirname(os.path.abspath(__file__)))
 import core
-reg = json.load(open(os.path.join(core.VERIF, "harness", "packages.json")))
 ctx = core.Ctx("WARM", "quick", 0)
-for key, h in reg.items():
+for pj in sorted(glob.glob(os.path.join(core.VERIF, "harness", "*", "pkg.json"))):
+    key = os.path.basename(os.path.dirname(pj))
+    h = json.load(open(pj))
     rc, out, _ = core.harness_pkg(ctx, key, "^TestVerifNothing$", race=bool(h.get("race")))
     if rc != 0:
         print("warm: %s failed to build\n%s" % (key, out[-2000:]))
